@@ -10,6 +10,24 @@
 //!               random choices reproduces <implenc>)
 //!     verdict: every `right` password opens <isoenc>: Ok, all objects and the trailer equal to <doc>'s, the Encrypt
 //!              entry and the encryption dictionary gone; every `wrong` password is rejected.
+//!
+//! Passwords.  The specification's algorithms are defined on the password bytes AFTER preparation (PDFDocEncoding for
+//! revisions 2-4, SASLprep + UTF-8 for revisions 5-6); lopdf's API takes the Unicode text and prepares it itself.  So:
+//!   * in a `case` line <ver> and the `pws` hold the PREPARED bytes (what the specification side reads); an optional
+//!     seventh element (raw xTEXT ..), parallel to `pws`, holds the UTF-8 text handed to lopdf (absent: the same bytes,
+//!     printable ASCII).  The harness re-prepares every text by the crate's own route and answers (badprep) if the
+//!     line's prepared bytes are not what lopdf makes of the text; for revisions 5-6 the crate's route must also agree
+//!     with the stringprep crate's SASLprep (verdict).
+//!   * in an `enc` line given to this harness <ver> holds the UTF-8 texts.
+//!   (prep 4|6 xTEXT ..) -> (prepared xBYTES|(err) ..)      the crate's preparation (generator aid)
+//!
+//! Algorithm 2.B aids (src/pwaid.rs; not trusted, they only choose inputs -- the extracted specification decides):
+//!   (find2b xUSER xOWNER (want c c c c) xSEED) -> (found xRND8 xRND9 (cls ..) (cls ..) (cls ..) (cls ..)) | (notfound)
+//!       salts for Algorithms 8 / 9 such that the user validation, user key, owner validation, owner key hashes of a
+//!       revision 6 document with these (prepared) passwords end exactly on the boundary `last byte = round - 32` of the
+//!       exit test (c = eq), one below it (below), after a round just above it (above), in the 64th round (r64, eq64), any
+//!   (enc .. (opts (aim2b user|owner|any))): lopdf encrypts again (fresh random salts) until one of the hashes the user /
+//!       owner password goes through ends exactly on the boundary (at most 600 times); verdict text `skip aimed=<classes>`
 use lopdf::encryption::crypt_filters::*;
 use lopdf::{Dictionary, Document, EncryptionState, EncryptionVersion, Object, Permissions};
 use lvh::conv::*;
@@ -17,6 +35,9 @@ use lvh::sx::Sx;
 use std::collections::BTreeMap;
 use std::panic::{catch_unwind, AssertUnwindSafe};
 use std::sync::Arc;
+
+#[path = "../pwaid.rs"]
+mod pwaid;
 
 struct Ver {
     tag: String,
@@ -109,7 +130,7 @@ fn err_class(e: &lopdf::Error) -> String {
 
 #[allow(deprecated)]
 fn make_state(v: &Ver, doc: &Document) -> Result<EncryptionState, lopdf::Error> {
-    // the passwords of the cases are printable ASCII: both password preparations are the identity there
+    // the UTF-8 texts; lopdf prepares them itself
     let owner = String::from_utf8_lossy(&v.owner).to_string();
     let user = String::from_utf8_lossy(&v.user).to_string();
     let version = match v.tag.as_str() {
@@ -176,17 +197,78 @@ fn main() {
     lvh::drive(|x| {
         let a = x.args();
         let bad = (Sx::id("badcase"), "skip".to_string());
-        let (Some(tag), true) = (x.tag(), a.len() >= 4) else { return bad };
+        let Some(tag) = x.tag() else { return bad };
+        if tag == "prep" && !a.is_empty() {
+            let r6 = a[0].as_u64().map(|r| r >= 5).unwrap_or(false);
+            let alg = catch_unwind(|| pwaid::prep_algorithm(r6)).ok().flatten();
+            let out = a[1..].iter().map(|t| {
+                let p = match (&alg, t.as_bytes()) {
+                    (Some(alg), Some(raw)) => catch_unwind(AssertUnwindSafe(|| pwaid::prepare(alg, &raw))).ok().flatten(),
+                    _ => None,
+                };
+                p.map(|b| Sx::bytes(&b)).unwrap_or_else(|| Sx::L(vec![Sx::id("err")]))
+            }).collect();
+            return (Sx::tagged("prepared", out), "skip".into());
+        }
+        if tag == "find2b" && a.len() == 4 {
+            let (Some(user), Some(owner), Some(seed)) = (a[0].as_bytes(), a[1].as_bytes(), a[3].as_bytes()) else { return bad };
+            let w: Vec<String> = a[2].args().iter().filter_map(|y| y.as_atom().map(|b| String::from_utf8_lossy(b).to_string())).collect();
+            if w.len() != 4 {
+                return bad;
+            }
+            return match pwaid::find_r6_salts(&user, &owner, [&w[0], &w[1], &w[2], &w[3]], &seed) {
+                None => (Sx::L(vec![Sx::id("notfound")]), "skip".into()),
+                Some((r0, r1, ts)) => {
+                    let mut out = vec![Sx::bytes(&r0), Sx::bytes(&r1)];
+                    out.extend(ts.iter().map(|t| Sx::tagged("cls", t.classes().into_iter().map(Sx::id).collect())));
+                    (Sx::tagged("found", out), "skip".into())
+                }
+            };
+        }
+        if a.len() < 4 {
+            return bad;
+        }
         let (Some(doc0), Some(v)) = (doc_of_sx(&a[0]), ver_of_sx(&a[1])) else { return bad };
+        let r6prep = v.tag == "r5" || v.tag == "v5";
         if tag == "enc" {
+            // (opts .. (aim2b user|owner|any)): revision 6 only
+            let aim: Option<String> = a.get(4).and_then(|o| o.args().iter().find(|y| y.tag() == Some("aim2b")))
+                .and_then(|y| y.args().first().and_then(|z| z.as_atom().map(|b| String::from_utf8_lossy(b).to_string())));
+            let mut aimed = String::from("none");
             let r = catch_unwind(AssertUnwindSafe(|| {
-                let st = make_state(&v, &doc0)?;
-                let mut d = doc0.clone();
-                d.encrypt(&st).map(|_| d)
+                let tries = if aim.is_some() && v.tag == "v5" { 600 } else { 1 };
+                let prepared = match (&aim, pwaid::prep_algorithm(true)) {
+                    (Some(_), Some(alg)) => pwaid::prepare(&alg, &v.user).zip(pwaid::prepare(&alg, &v.owner)),
+                    _ => None,
+                };
+                let mut last = None;
+                for _ in 0..tries {
+                    let st = make_state(&v, &doc0)?;
+                    let mut d = doc0.clone();
+                    d.encrypt(&st)?;
+                    let hit = match (&aim, &prepared) {
+                        (Some(which), Some((pu, po))) => pwaid::r6_traces_of(&d, pu, po).map(|ts| {
+                            let idx: &[usize] = match which.as_str() { "user" => &[0, 1], "owner" => &[2, 3], _ => &[0, 1, 2, 3] };
+                            if idx.iter().any(|i| ts[*i].is("eq")) {
+                                aimed = idx.iter().map(|i| format!("{}:{}", ["uv", "uk", "ov", "ok"][*i], ts[*i].classes().join("+"))).collect::<Vec<_>>().join(",");
+                                true
+                            } else {
+                                false
+                            }
+                        }).unwrap_or(false),
+                        _ => true,
+                    };
+                    last = Some(d);
+                    if hit {
+                        break;
+                    }
+                }
+                Ok::<Document, lopdf::Error>(last.unwrap())
             }));
+            let verdict = if aim.is_some() { format!("skip aimed={}", aimed) } else { "skip".to_string() };
             return match r {
                 Err(_) => (Sx::L(vec![Sx::id("panic")]), "skip".into()),
-                Ok(Ok(d)) => (Sx::tagged("encdoc", vec![doc_to_sx(&d)]), "skip".into()),
+                Ok(Ok(d)) => (Sx::tagged("encdoc", vec![doc_to_sx(&d)]), verdict),
                 Ok(Err(e)) => (Sx::tagged("err", vec![Sx::id(&err_class(&e))]), "skip".into()),
             };
         }
@@ -199,8 +281,27 @@ fn main() {
         let want_trailer = sorted_dict_sx(&doc0.trailer).print();
         let mut dec = vec![];
         let mut verdict = "ok".to_string();
-        for p in a[4].args() {
-            let (Some(kind), Some(pw)) = (p.tag(), p.args().first().and_then(|s| s.as_bytes())) else { return bad };
+        let raws: Option<Vec<Vec<u8>>> = a.get(6).filter(|y| y.tag() == Some("raw"))
+            .map(|y| y.args().iter().filter_map(|t| t.as_bytes()).collect());
+        if raws.as_ref().map(|r| r.len() != a[4].args().len()).unwrap_or(false) {
+            return bad;
+        }
+        let alg = catch_unwind(|| pwaid::prep_algorithm(r6prep)).ok().flatten();
+        for (i, p) in a[4].args().iter().enumerate() {
+            let (Some(kind), Some(prepared)) = (p.tag(), p.args().first().and_then(|s| s.as_bytes())) else { return bad };
+            // the text lopdf gets, and what the crate's own preparation makes of it: must be the line's prepared bytes
+            let text = raws.as_ref().map(|r| r[i].clone()).unwrap_or_else(|| prepared.clone());
+            let mine = alg.as_ref().and_then(|alg| catch_unwind(AssertUnwindSafe(|| pwaid::prepare(alg, &text))).ok().flatten());
+            if mine.as_ref() != Some(&prepared) {
+                dec.push(Sx::L(vec![Sx::id("badprep")]));
+                continue;
+            }
+            if r6prep && verdict == "ok" && pwaid::saslprep_direct(&text).as_ref() != Some(&prepared) {
+                verdict = format!("FAIL the prepared password x{} of the text x{} is not its SASLprep (RFC 4013) form",
+                                  prepared.iter().map(|c| format!("{:02x}", c)).collect::<String>(),
+                                  text.iter().map(|c| format!("{:02x}", c)).collect::<String>());
+            }
+            let pw = text;
             let mut d = isoenc.clone();
             let r = catch_unwind(AssertUnwindSafe(|| decrypt_with(&mut d, &pw)));
             let hexpw: String = pw.iter().map(|c| format!("{:02x}", c)).collect();
@@ -216,7 +317,7 @@ fn main() {
                     dec.push(if c == "IncorrectPassword" { Sx::L(vec![Sx::id("rejected")]) } else { Sx::tagged("err", vec![Sx::id(&c)]) });
                     if kind == "right" && verdict == "ok" {
                         verdict = format!("FAIL the ISO-encrypted document does not open with the {} password x{}: {}",
-                                          if pw == v.user { "user" } else { "owner" }, hexpw, c);
+                                          if prepared == v.user { "user" } else { "owner" }, hexpw, c);
                     }
                 }
                 Ok(Ok(())) => {
